@@ -37,7 +37,11 @@ def base_matrix(cls, rng):
     if cls == "ok_nx1":
         return rng.standard_normal((3, 1, 4))
     if cls == "ok_rank_deficient":
-        return omul(rng.standard_normal((4, 1, 4)), rng.standard_normal((1, 3, 4)))
+        # EXACTLY rank one: rows are dyadic multiples of one integer quaternion row, so elimination meets an
+        # exactly zero column (a float rank-deficient matrix would leave a noise-level pivot and either outcome)
+        u = np.zeros((4, 1, 4))
+        u[:, 0, 0] = [1.0, 2.0, 4.0, 2.0]
+        return omul(u, rng.integers(-3, 4, (1, 3, 4)).astype(float) + np.array([1.0, 0, 0, 0]))
     raise KeyError(cls)
 
 
